@@ -949,9 +949,12 @@ def reference_fns():
         p = os.path.join(os.path.dirname(os.path.dirname(os.path.abspath(__file__))), 'reference_fns.json')
         if os.path.exists(p):
             d = json.load(open(p))
-            _REF[0] = {'sig': d['sig'], '*': set(d['all']), 'consts': set(d.get('consts', []))}
+            # reference helpers the rules look through: always written where they are called, so that a tree in which the
+            # helper was folded into its caller has the same normal form
+            transparent = {'anycache::CacheExt::add_any'}
+            _REF[0] = {'sig': d['sig'], '*': set(d['all']) - transparent, 'consts': set(d.get('consts', [])), 'callers': d.get('callers', {}), 'transparent': transparent}
             for c, v in d.get('per_cfg', {}).items():
-                _REF[0][c] = set(v)
+                _REF[0][c] = set(v) - transparent
         else:
             _REF[0] = None
     return _REF[0]
@@ -1056,6 +1059,55 @@ class Facts:
                 if len(cands) == 1:
                     pairs.setdefault(cands[0], []).append(g)
             ren = {n: gs[0] for n, gs in pairs.items() if len(gs) == 1}
+            # a private *type* was renamed (or made concrete): its methods come back under another path with another
+            # signature text.  Pair what is left (i) by trait and method for impl items of the same module, (ii) by module,
+            # arity and the set of callers for inherent methods and free functions -- each only when unique both ways
+            left_new = [n for n in new if n not in ren]
+            left_gone = [g for g in gone if g not in ren.values()]
+            if left_new and left_gone:
+                def module_of(pth):
+                    t = re.sub(r'^<', '', pth)
+                    segs = []
+                    for seg in t.split('::'):
+                        if re.match(r'^[a-z_][a-z0-9_]*$', seg):
+                            segs.append(seg)
+                        else:
+                            break
+                    return '::'.join(segs)
+
+                def impl_key(pth):
+                    m = re.match(r'^<(.*) as ([^<>]*(?:<.*>)?)>::(\w+)$', pth)
+                    return (module_of(m.group(1)), re.sub(r'<.*$', '', m.group(2)), m.group(3)) if m else None
+                import inline as _inl0
+                cur_callers = {}
+                for x in raw['bodies']:
+                    if x['promoted'] is not None:
+                        continue
+                    who = x.get('root') or x['path']
+                    for bl in x['blocks']:
+                        cp = _inl0.callee_path(bl['term'])
+                        if cp:
+                            cur_callers.setdefault(cp, set()).add(who)
+                cand = {}
+                for g in left_gone:
+                    gk = impl_key(g)
+                    for n in left_new:
+                        if gk is not None:
+                            okp = impl_key(n) == gk and gk[0] != ''
+                        else:
+                            gs, ns = ref['sig'].get(g), sigs.get(n)
+                            okp = impl_key(n) is None and module_of(g) == module_of(n) and module_of(g) != '' and gs is not None and ns is not None \
+                                and len(gs[0]) == len(ns['inputs']) and bool(ref['callers'].get(g)) \
+                                and set(ref['callers'].get(g)) == {ren.get(c, c) for c in cur_callers.get(n, set())}
+                        if okp:
+                            cand.setdefault(g, []).append(n)
+                back = {}
+                for g, ns_ in cand.items():
+                    for n in ns_:
+                        back.setdefault(n, []).append(g)
+                for g, ns_ in cand.items():
+                    if len(ns_) == 1 and len(back[ns_[0]]) == 1:
+                        ren[ns_[0]] = g
             if ren:
                 for n, g in ren.items():
                     text = re.sub(r'(?<![\w:])' + re.escape(n) + r'(?![\w])', lambda _m, g=g: g, text)
